@@ -337,12 +337,21 @@ func checkExclusionOn(w *schema.Type, rich *schema.V, spec [][]string, mode stri
 			return k, fmt.Sprintf("output %q denotes %s, want %s", out, got, want)
 		}
 	case "read-json", "read-ror2", "read-untyped":
-		for _, variant := range []string{"full", "pruned"} {
+		variants := []string{"full", "pruned"}
+		if mode == "read-json" {
+			// the same documents with an explicit null member (unknown to the schema) leading every object
+			variants = append(variants, "full+nulls", "pruned+nulls")
+		}
+		for _, variant := range variants {
 			v := rich
-			if variant == "pruned" {
+			if strings.HasPrefix(variant, "pruned") {
 				v = want
 			}
-			expectErr := variant == "full" && touches(rich, spec)
+			var jopt *refjson.Options
+			if strings.HasSuffix(variant, "+nulls") {
+				jopt = &refjson.Options{Extra: &refjson.ExtraField{Name: "aaNull", Value: "null", Pos: 0}}
+			}
+			expectErr := strings.HasPrefix(variant, "full") && touches(rich, spec)
 			rt := Reg[w.Name]
 			ptr := reflect.New(rt)
 			err := safeCall(func() error {
@@ -350,7 +359,7 @@ func checkExclusionOn(w *schema.Type, rich *schema.V, spec [][]string, mode stri
 				var e error
 				switch mode {
 				case "read-json":
-					r, e = restlicodec.NewJsonReaderWithExcludedFields([]byte(wrapJSON(refjson.Encode(v, nil), offset)), ps, offset)
+					r, e = restlicodec.NewJsonReaderWithExcludedFields([]byte(wrapJSON(refjson.Encode(v, jopt), offset)), ps, offset)
 				case "read-ror2":
 					r, e = restlicodec.NewRor2ReaderWithExcludedFields(wrapROR2(refror2.Encode(v, refror2.Header, nil), offset), ps, offset)
 				default:
